@@ -247,6 +247,23 @@ type window struct {
 	header   bool
 }
 
+// wideCookies: cookies are 64-bit. These were never returned and differ from a valid cookie only above bit
+// 31 (2^32 + 0 would be a rewind, 2^32 + the continuation cookie a normal continuation, if only the low half
+// were looked at) or are the all-ones value (-1 as a signed number; d_next = cookie+1 wraps to 0). They are
+// judged like any invalid cookie (an errno, or an empty end-of-directory result) and, because a refused
+// cookie leaves the window as it is, are offered as the LAST call of a sequence only.
+func wideCookies(w window) []rdStep {
+	cont := uint64(0)
+	if w.ok {
+		cont = w.cookie + uint64(w.complete)
+	}
+	c := []rdStep{{Cookie: 1 << 32, Kind: "wide-cookie"}}
+	if cont != 0 {
+		c = append(c, rdStep{Cookie: 1<<32 + cont, Kind: "wide-cookie"})
+	}
+	return append(c, rdStep{Cookie: ^uint64(0), Kind: "wide-cookie"})
+}
+
 func choices(d *dirInfo, w window) []rdStep {
 	invalid := rdStep{Cookie: uint64(len(d.list)) + 3, Kind: "invalid"}
 	if !w.ok {
@@ -315,16 +332,16 @@ func runSeq(x *inst, d *dirInfo, seq []rdStep, loc *rdLocal, verbose bool) *rdVi
 			return bad(st, "trap", r.Trap)
 		}
 		switch st.Kind {
-		case "invalid":
+		case "invalid", "wide-cookie":
 			// a cookie that was never returned: must fail, or report an empty end of directory
 			if r.Errno != 0 {
-				loc.outcomes[fmt.Sprintf("fd_readdir:invalid-cookie:errno=%d", r.Errno)]++
+				loc.outcomes[fmt.Sprintf("fd_readdir:%s:errno=%d", st.Kind, r.Errno)]++
 				continue
 			}
 			if r.N != 0 {
-				return bad(st, "accepted", fmt.Sprintf("a cookie beyond the end returned bufused=%d", r.N))
+				return bad(st, "accepted", fmt.Sprintf("a cookie that was never returned (beyond the end) was served: bufused=%d", r.N))
 			}
-			loc.outcomes["fd_readdir:invalid-cookie:empty"]++
+			loc.outcomes["fd_readdir:"+st.Kind+":empty"]++
 			return nil
 		case "stale":
 			// before the last window: wazero documents ENOENT; serving it correctly is fine as well
@@ -421,10 +438,14 @@ func enumerate(d *dirInfo, first uint32, alts []uint32, depth int, emit func(seq
 			bl = append(bl, alts...)
 		}
 		for _, b := range bl {
-			for _, c := range choices(d, w) {
+			cs := choices(d, w)
+			if len(seq) == depth-1 {
+				cs = append(cs, wideCookies(w)...)
+			}
+			for _, c := range cs {
 				c.Buflen = b
 				nw := w
-				if c.Kind != "stale" && c.Kind != "invalid" {
+				if c.Kind != "stale" && c.Kind != "invalid" && c.Kind != "wide-cookie" {
 					_, _, complete, header := predict(d.list, b, c.Cookie)
 					nw = window{true, c.Cookie, complete, header}
 				}
@@ -642,7 +663,7 @@ func readdirExplore(run *fw.Run, outcomes *fw.Counter, samples *fw.Sampler) rdSt
 	}
 	st.bounds = map[string]any{
 		"directories": len(dirs), "dir_sizes": "0..6", "name_lengths": []int{1, 8, 40}, "buf_lens": fmt.Sprintf("24..%d + {130,200,512,2048}", 24+41*2),
-		"cookie_choices":            "rewind, re-read, every d_next of the last window (continue / skip truncated), stale, invalid",
+		"cookie_choices":            "rewind, re-read, every d_next of the last window (continue / skip truncated), stale, invalid; as the last call also the 64-bit cookies 2^32, 2^32+continuation, 2^64-1",
 		"mutation_between_listings": fmt.Sprintf("mutations %v x buf_len %v x every traversal prefix (0 calls .. complete), then rewound traversal on the same descriptor", mutations, mutBufs),
 		"awkward_name_directories":  fmt.Sprintf("%d directories (all subsets of size 0..2 of %d awkward names, sliding windows of size 3 and 4) x buf_len %v x every cookie sequence of depth 3 (thorough 4) + traversal; %d large directories (100 plain names + \"..a\" created first/middle/last) x buf_len %v, complete traversal", len(small), len(awkwardNames)-1, nameBufs, len(big), bigBufs),
 		"plans(alternative buf_lens after the first call, depth)": fmt.Sprint(plans),
